@@ -7,14 +7,14 @@ Local Open Scope N_scope.
    testing len, insert on an existing key goes through insert_in_slot.  Keys = payloads = N, hash = identity. *)
 Arguments rcap {K P}. Arguments rlen {K P}. Arguments rfree {K P}. Arguments slots {K P}.
 Arguments status {K P}. Arguments sval {K P}. Arguments set_slot {K P}.
-Arguments Ok {A}. Arguments Uninit {A}. Arguments Hang {A}. Arguments AssertFailed {A}.
+Arguments ROk {A}. Arguments Uninit {A}. Arguments Hang {A}. Arguments AssertFailed {A}.
 Definition K := N. Definition P := N.
 Definition hash (k : K) : N := k.
 Notation rawN := (raw K P).
 
 Definition find_or_free_pinned (t : rawN) (k : K) : out (rawN * (N + N)) :=
   obind (reserve K P t 1) (fun t1 =>
-  obind (probe_free K P N.eqb hash (N.to_nat (rcap t1)) t1 k (N.land (hash k) (rcap t1 - 1)) None) (fun r => Ok (t1, r))).
+  obind (probe_free K P N.eqb hash (N.to_nat (rcap t1)) t1 k (N.land (hash k) (rcap t1 - 1)) None) (fun r => ROk (t1, r))).
 (* debug build: the assertion in insert_in_slot; release build: it is compiled out *)
 Definition insert_in_slot_rel (t : rawN) (k : K) (p : P) (i : N) : rawN :=
   let s := tget (slots t) i in
@@ -24,21 +24,21 @@ Definition insert_pinned (debug : bool) (t : rawN) (k : K) (p : P) : out rawN :=
   obind (find_or_free_pinned t k) (fun x =>
     match x with
     | (t1, inl i) | (t1, inr i) =>
-      if debug then insert_in_slot K P hash t1 k p i else Ok (insert_in_slot_rel t1 k p i)
+      if debug then insert_in_slot K P hash t1 k p i else ROk (insert_in_slot_rel t1 k p i)
     end).
 Definition find_pinned (debug : bool) (t : rawN) (k : K) : out (option N) :=
   if debug && (rfree t =? 0) then AssertFailed          (* debug_assert_ne!(self.free, 0) comes first *)
-  else if rlen t =? 0 then Ok None
+  else if rlen t =? 0 then ROk None
   else probe K P N.eqb (N.to_nat (rcap t)) t k (N.land (hash k) M63) (N.land (hash k) (rcap t - 1)).
 
 Definition after (debug : bool) (l : list (K * P)) : out rawN :=
-  fold_left (fun acc kp => obind acc (fun t => insert_pinned debug t (fst kp) (snd kp))) l (Ok (new_raw K P)).
+  fold_left (fun acc kp => obind acc (fun t => insert_pinned debug t (fst kp) (snd kp))) l (ROk (new_raw K P)).
 
 (* C19 refuted at the pinned commit: one insertion fills the only slot, and a lookup of an absent key
    then finds no FREE slot to stop at: the release build probes forever, the debug build asserts. *)
 Example find_hangs_refuted :
   match after false [(1, 10)] with
-  | Ok t => rfree t = 0 /\ find_pinned false t 2 = Hang /\ find_pinned true t 2 = AssertFailed
+  | ROk t => rfree t = 0 /\ find_pinned false t 2 = Hang /\ find_pinned true t 2 = AssertFailed
   | _ => False
   end.
 Proof. vm_compute. repeat split. Qed.
@@ -48,14 +48,14 @@ Proof. reflexivity. Qed.
 (* inserting an existing key counts it twice: len = 2 with one occupied slot (release), assertion (debug) *)
 Example insert_existing_refuted :
   match after false [(7, 1); (7, 2)] with
-  | Ok t => rlen t = 2 /\ length (occ_vals K P t (N.to_nat (rcap t))) = 1%nat
+  | ROk t => rlen t = 2 /\ length (occ_vals K P t (N.to_nat (rcap t))) = 1%nat
   | _ => False
   end /\ after true [(7, 1); (7, 2)] = AssertFailed.
 Proof. vm_compute. repeat split. Qed.
 (* the repaired operations on the same inputs *)
 Example repaired_ok :
   match insert K P N.eqb hash (new_raw K P) 1 10 with
-  | Ok (t, _) => find K P N.eqb hash t 2 = Ok None /\
-                 match insert K P N.eqb hash t 1 11 with Ok (t', inl _) => rlen t' = 1 | _ => False end
+  | ROk (t, _) => find K P N.eqb hash t 2 = ROk None /\
+                 match insert K P N.eqb hash t 1 11 with ROk (t', inl _) => rlen t' = 1 | _ => False end
   | _ => False end.
 Proof. vm_compute. split; reflexivity. Qed.
